@@ -72,6 +72,35 @@ def _replay_scaled(b, sc, off, perm=None):
     return bad
 
 
+def _record_long(item):
+    """T: lower / upper chain of a long x-sorted integer curve (float64 or int64 array)."""
+    import random
+    import kneeliverse.convex_hull as ch
+    cid, seed, n, mode, dtype = item
+    rng = random.Random(seed)
+    x = np.cumsum([rng.randint(1, 3) for _ in range(n)])
+    kind = seed % 3
+    if kind == 0:
+        y = np.array([rng.randint(0, 1000) for _ in range(n)])
+    elif kind == 1:      # convex-ish decay with plateaus and collinear runs
+        y = np.round(100000.0 / (np.arange(n) + 5.0)).astype(int)
+    else:                # staircase
+        y = np.array([1000 - 7 * (k // 5) for k in range(n)])
+    P = np.column_stack([x, y]).astype(np.int64 if dtype == "int64" else float)
+    fn = ch.graham_scan_lower if mode == "lower" else ch.graham_scan_upper
+    try:
+        r = fn(P)
+        out, chain = "returned", [int(v) for v in np.asarray(r).tolist()]
+    except Exception as ex:
+        out, chain = "raised:" + type(ex).__name__, []
+    return {"id": cid, "mode": mode, "outcome": out, "chain": chain, "pts": [[int(a), int(b)] for a, b in zip(x, y)]}, \
+           {"long": [cid, seed, n, mode, dtype]}
+
+
+STATIC_LONG = {"id": "s", "mode": "lower", "outcome": "returned", "chain": [0, 2, 4],
+               "pts": [[0, 5], [1, 4], [2, 1], [3, 2], [4, 0]]}
+
+
 def run(ctx):
     ctx.rule = ("TLC enumerates every grid curve (n<=NMax, y in 0..YMax, 3 spacing patterns) for the lower/upper "
                 "chains and every SetMin..SetMax-point subset of the grid for graham_scan, checks the machines against "
@@ -101,10 +130,29 @@ def run(ctx):
                 ctx.violation(clause, {"kind": "G", "behaviour": b}, detail)
     ctx.extra["violating_behaviours_by_clause"] = {"%s/%s" % k: v for k, v in seen.items()}
     ctx.traces += len(beh)
+    # ---- T: long curves
+    longs = [("L%d" % k, ctx.seed * 13 + k, n, mode, dt) for k, (n, mode, dt) in enumerate(
+        [(300, "lower", "float64"), (300, "upper", "int64"), (800, "lower", "int64"), (800, "upper", "float64"),
+         (301, "lower", "float64"), (302, "upper", "float64")] + ([] if ctx.quick else [(2000, "lower", "float64"), (2000, "upper", "int64")]))]
+    rec = [_record_long(it) for it in longs]
+    bad1 = dict(STATIC_LONG, chain=[0, 1, 2, 4])
+    bad2 = dict(STATIC_LONG, chain=[0, 4])
+    rej = ctx.trace("Trace_Hull", [c for c, _ in rec], selftest=[(STATIC_LONG, "ok"), (bad1, "strict-turns"), (bad2, "chain-is-hull")], chunk=4)
+    metaL = {c["id"]: m for c, m in rec}
+    for c, _ in rec:
+        ctx.count(("T", c["mode"], len(c["pts"]), c["chain"][:5]), len(c["chain"]) < len(c["pts"]))
+    for cid, vs in rej.items():
+        ctx.violation(vs[0][0], {"kind": "Tlong", "long": metaL[cid]["long"]}, {"verdict": [str(v)[:200] for v in vs[0]]})
     ctx.sample({"binding": "G", "behaviour": next(b for b in beh if b["mode"] == "lower" and len(b["pts"]) == 5 and len(b["result"]) == 3)})
     ctx.sample({"binding": "G", "behaviour": next(b for b in beh if b["mode"] == "graham" and len(b["pts"]) == 5 and not b["general"])})
 
 
 def replay(ctx, obj):
+    if obj["case"].get("kind") == "Tlong":
+        c, m = _record_long(tuple(obj["case"]["long"]))
+        rej = ctx.trace("Trace_Hull", [c])
+        for cid, vs in rej.items():
+            ctx.violation(vs[0][0], obj["case"], {"verdict": [str(v)[:200] for v in vs[0]]})
+        return
     for clause, detail in _replay_line(obj["case"]["behaviour"]):
         ctx.violation(clause, obj["case"], detail)
